@@ -3,6 +3,8 @@
 Scripts: ops separated by ',' - S (start siblings), E (stop siblings), W<hex> / W- / Wn<count> (lyb_write; Wn = count
 bytes of the fixed pattern shared by the driver and the model), for the reader R<count>."""
 from props.comps import Comp
+import os
+
 from vlib import hexs
 
 MAX = 65535          # LYB_SIZE_MAX of the unchanged tree; only used to aim the generators
@@ -352,6 +354,12 @@ class LybHashGen(Comp):
         for m, nm in ((b"m", b"n29"), (b"m", b"n88"), (b"ietf-interfaces", b"interfaces"), (b"a", b"b")):
             for c in range(0, 12):
                 L.append("lybhash\t%s\t%s\t%d" % (hexs(m), hexs(nm), c))
+        # every name of the collision corpus on every collision id: the corpus (found with the Python model of the hash) is
+        # verified against the library's own lyb_generate_hash and the extracted model in every run
+        for mod, depth, names in load_collision_families():
+            for nm in names:
+                for c in range(8):
+                    L.append("lybhash\t%s\t%s\t%d" % (hexs(mod.encode()), hexs(nm.encode()), c))
         for _ in range(self.n(tier, 1500, 60000, scale)):
             if rng.random() < 0.7:
                 m = ident(rng, 12).encode()
@@ -373,6 +381,12 @@ class LybSiblings(Comp):
 
     def gen(self, rng, tier, scale=1.0):
         L = ["lybsib\tm\tn29,n88", "lybsib\tm\tn88,n29", "lybsib\tm\ta,n29,b,n88,c", "lybsib\tm\ta", "lybsib\tmod\ta,b,c,d,e,f,g,h,i,j"]
+        # the corpus of colliding names (depths 1 - 6: the second sibling is printed with depth + 1 hashes; 8: hashing fails):
+        # both orders, alone, among other siblings
+        for mod, depth, names in load_collision_families():
+            L.append("lybsib\t%s\t%s" % (mod, ",".join(names)))
+            L.append("lybsib\t%s\t%s" % (mod, ",".join(names[::-1])))
+            L.append("lybsib\t%s\t%s" % (mod, ",".join(["a", names[-1], "b", "c", names[0], "d"])))
         # random names: many siblings make collision id 0 collide often (128 values)
         for _ in range(self.n(tier, 60, 3000, scale)):
             mod = ident(rng, 8)
@@ -408,3 +422,91 @@ class LybSiblings(Comp):
             if ":" not in item or item.split(":")[1] != str(k):
                 return ("lyb-hash-identifies", "sibling %d printed as %s" % (k, item))
         return None
+
+
+# ------------------------------------------------------------------------------------------------
+# sibling names that collide on the first collision ids: corpus/lyb_collisions.txt
+# ------------------------------------------------------------------------------------------------
+LYB_COLLISIONS = os.path.join(os.path.dirname(os.path.dirname(os.path.dirname(os.path.abspath(__file__)))), "corpus", "lyb_collisions.txt")
+COLLISION_MODULES = ["hashcol", "verif-lyb-collision-families", "modab", "m1"]
+
+
+def collision_depth(mod, a, b):
+    """the number of leading collision ids 0, 1, ... on which the hashes of a and b (nodes of module mod) are equal;
+    8 = on all of them (LYB_HASH_BITS): the printer cannot tell them apart (finding lyb-hash-collision)"""
+    d = 0
+    while d < 8 and py_hash(mod.encode(), a.encode(), d) == py_hash(mod.encode(), b.encode(), d):
+        d += 1
+    return d
+
+
+def find_collision_families(mod, count=40000, stem="n"):
+    """birthday search: names <stem><i> of module mod grouped by their hash sequences; for every depth d = 1..8 a few
+    families (2 - 4 names) whose members collide pairwise on exactly the collision ids 0..d-1 (8: on all ids)"""
+    m = mod.encode()
+    seqs = {}
+    for i in range(count):
+        nm = "%s%d" % (stem, i)
+        seqs[nm] = tuple(py_hash(m, nm.encode(), c) for c in range(8))
+    out = {}
+    for d in range(8, 0, -1):
+        groups = {}
+        for nm, sq in seqs.items():
+            groups.setdefault(sq[:d], []).append(nm)
+        fams = []
+        for g in groups.values():
+            if len(g) < 2:
+                continue
+            # members that collide pairwise to exactly depth d
+            fam = [g[0]]
+            for nm in g[1:]:
+                if all(collision_depth(mod, nm, x) == d for x in fam):
+                    fam.append(nm)
+                if len(fam) == 4:
+                    break
+            if len(fam) > 1:
+                fams.append(fam)
+            if len(fams) >= 6:
+                break
+        if fams:
+            out[d] = sorted(fams, key=lambda f: -len(f))[:6]
+    return out
+
+
+def load_collision_families():
+    """[(module, depth, [names])] of corpus/lyb_collisions.txt, each family RE-CHECKED against the Python model of the hash
+    (the model is tied to lyb_generate_hash by LybHashGen, which also runs every name of the corpus on every collision id:
+    a change of the hash function in the library shows as mismatches there and as an error here, not as a silent loss)"""
+    fams = []
+    for ln in open(LYB_COLLISIONS):
+        ln = ln.strip()
+        if not ln or ln.startswith("#"):
+            continue
+        mod, depth, names = ln.split("\t")
+        names = names.split(",")
+        for i, a in enumerate(names):
+            for b in names[i + 1:]:
+                if collision_depth(mod, a, b) != int(depth):
+                    raise RuntimeError("corpus/lyb_collisions.txt: %s and %s of module %s do not collide to depth %s any more "
+                                       "(regenerate: python3 tools/props/comps_lyb.py)" % (a, b, mod, depth))
+        fams.append((mod, int(depth), names))
+    return fams
+
+
+def write_collision_corpus():
+    with open(LYB_COLLISIONS, "w") as f:
+        f.write("# sibling-name families whose LYB schema hashes (lyb_generate_hash: module name, node name, collision id) collide\n"
+                "# pairwise on exactly the collision ids 0..depth-1; depth 8 = on every id (the printer fails: lyb-hash-collision).\n"
+                "# A module name shorter than the depth adds no new input (lyb.c), so short names reach depth 8 at once.\n"
+                "# Found by birthday search over n<i> (tools/props/comps_lyb.py find_collision_families); checked at load time\n"
+                "# against the Python model and at run time against the library (LybHashGen, LybSiblings, comps_doc.LybCollisionRT).\n"
+                "# module<TAB>depth<TAB>names\n")
+        for mod in COLLISION_MODULES:
+            for d, fams in sorted(find_collision_families(mod).items()):
+                for fam in fams:
+                    f.write("%s\t%d\t%s\n" % (mod, d, ",".join(fam)))
+
+
+if __name__ == "__main__":
+    write_collision_corpus()
+    print(len(load_collision_families()), "families")
